@@ -120,6 +120,7 @@ class World(object):
         self._orig_eval = None
         self.dispatch_seen = set()
         self.delivered_events = {}
+        self.render_attempted = set()
         self.resting_points = []
 
     # ------------------------------------------------------------------ reporting
@@ -235,6 +236,11 @@ class World(object):
                 # a late inbound arrival at a partial with-items join cleared the item list of
                 # the running task; the next item event cannot be recorded
                 return "KF-join-partial-late-arrival", ["join_partial", "arrival_after_join_started", "with_items_join"]
+            live = self.ledger.live_exec(args[0], args[1])
+            if self.ledger.reruns and live is not None and live.items is not None:
+                # a rerun re-executed a predecessor of a with-items task that is still running from
+                # before the rerun; its transition re-stages the task and clears the item list
+                return "KF-rerun-restages-running-items-task", ["rerun_predecessor_of_running_items_task"]
         return None, []
 
     def _twin_call(self, method, args, kw, ret, exc):
@@ -342,6 +348,9 @@ class World(object):
     # -- dispatch ---------------------------------------------------------------------------
     def op_dispatch(self):
         st_before = self.status
+        if st_before in ("running", "resuming", "requested", "scheduled", "delayed"):
+            for c in self.ledger.open_credits():
+                self.render_attempted.add(c.task)
         tasks = self.call("get_next_tasks")
         self.after_call("get_next_tasks")
         if self.o.get("chain"):
@@ -386,9 +395,10 @@ class World(object):
         vals = dict((k, v) for k, v in t["ctx"].items() if not k.startswith("__"))
         L = self.ledger
         # -- offers in statuses that forbid them
-        if self.status in ("pausing", "paused") or st_before in ("pausing", "paused"):
+        if st_before in ("pausing", "paused"):
             self.report("C09", "no_offer_while_paused", "task %s offered while workflow is %s" % (tid, st_before))
-        if L.cancel_requested and not (st_before == "failed" and L.runtime_errors and (tid, route) in self.cleanup_entitled()):
+        if L.cancel_requested and not (st_before == "failed" and (L.runtime_errors or self.forced_failed)
+                                       and (tid, route) in self.cleanup_entitled()):
             # (a runtime expression error processed after the request legitimately turns the
             # workflow failed, and the documented run-on-fail clean-up tasks may then be offered)
             self.report("C10", "no_offer_after_cancel", "task %s offered after cancellation was requested" % tid)
@@ -1090,6 +1100,7 @@ class World(object):
         """End of run (after settle)."""
         L = self.ledger
         st = self.status
+        self.check_data_fault()
         if self.error_processed_while_not_canceling and st != "failed" and not (self.cancel_req and st in ("canceled", "canceling")):
             kf, tags = None, []
             self.report("C02", "failure_ends_failed", "an unhandled failure / fail command / runtime error was processed "
@@ -1124,6 +1135,52 @@ class World(object):
                                 "entry names %r" % names)
 
     failed_before_cancel = False
+
+    MARKERS = ("nosuchvar_zz", "nosuchkey_zz", "1 + 'a'", "nosuchfunc_zz")
+
+    def check_data_fault(self):
+        """C11 (a): an expression of the definition that fails on the delivered data."""
+        f = self.p.get("_fault")
+        if not f or self.snap is None:
+            return
+        L = self.ledger
+        pos, T = f["pos"], f["task"]
+        errs = self.snap["errors"]
+        hits = [e for e in errs if any(m in (e.get("message") or "") for m in self.MARKERS)]
+        expected = False
+        if pos in ("vars", "wf_input"):
+            expected = True
+        elif pos == "output":
+            expected = self.rendered and self.status in lang.COMPLETED
+        elif pos in ("when", "publish"):
+            expected = any(x is not None and L.execs[x].task == T and w.startswith(pos) for x, w in L.runtime_errors)
+        elif pos == "retry_when":
+            expected = any(x is not None and L.execs[x].task == T and w == "retry" for x, w in L.runtime_errors)
+        elif pos in ("retry_count", "retry_delay"):
+            expected = any(x.task == T and x.kind != "bogus" for x in L.execs)
+        else:
+            expected = T in self.render_attempted
+            tw = (self.p["tasks"].get(T) or {}).get("with")
+            if expected and tw and pos in ("input", "action") and tw["items"][0] == "ctx":
+                # the action and input of a with-items task are rendered per item: never for []
+                expected = bool(L.root.values().get(tw["items"][1]))
+        if expected:
+            self.bump("probe_data_fault_fired")
+            if pos not in ("vars", "wf_input", "output"):
+                self.bump("probe_data_fault_runtime")
+            if not hits:
+                self.report("C11", "recorded", "the failing expression at %s of %s left no error entry (errors: %r)"
+                            % (pos, T, [e.get("message", "")[:60] for e in errs][:4]))
+            elif T is not None and not any(e.get("task_id") == T for e in hits):
+                self.report("C11", "recorded", "error entry for the failing expression at %s does not name task %s: %r"
+                            % (pos, T, hits[:2]))
+            elif pos in ("when", "publish") and not any(e.get("task_transition_id") for e in hits):
+                self.report("C11", "recorded", "error entry for the failing %s of %s names no transition: %r" % (pos, T, hits[:2]))
+            ok_status = ("failed", "canceled") if (self.cancel_req or self.status == "canceled") else ("failed",)
+            if self.status not in ok_status and not self.inflight:
+                self.report("C11", "fails", "expression at %s of %s failed but the workflow is %s" % (pos, T, self.status))
+        elif hits and self.status not in ("failed", "canceled", "canceling"):
+            self.report("C11", "fails", "an expression error was recorded but the workflow is %s" % self.status)
 
     # ------------------------------------------------------------------ C06 checks
     def check_ctx(self, x, vals):
